@@ -340,8 +340,7 @@ func (sd *SessionData) Save(r *http.Request, w http.ResponseWriter) error {
 // It clears the values map of the main, access, and refresh sessions, sets their MaxAge to -1
 // to expire the cookies immediately, and clears any associated token chunk cookies.
 // If a ResponseWriter is provided, it attempts to save the expired sessions to send the
-// expiring Set-Cookie headers. Finally, it clears internal fields and returns the SessionData
-// object to the pool.
+// expiring Set-Cookie headers.
 //
 // Parameters:
 //   - r: The HTTP request (required by the underlying session store).
@@ -374,12 +373,9 @@ func (sd *SessionData) Clear(r *http.Request, w http.ResponseWriter) error {
 		err = sd.Save(r, w)
 	}
 
-	// Clear transient per-request fields.
-	sd.request = nil
-
-	// Return session to pool.
-	sd.manager.sessionPool.Put(sd)
-
+	// The object is not handed back to the pool here: callers keep using the
+	// session after clearing it (to start a new login), and a pooled object
+	// would be picked up by a concurrent request.
 	return err
 }
 
